@@ -1,7 +1,8 @@
 (* C17 table facts, by kernel evaluation over the GENERATED tables
    (Units/Gen_Tables.v, Units/Gen_Compound.v).  See GenFacts16.v. *)
 From Coq Require Import List.
-From PV Require Import Units.Tables Units.Gen_Tables Units.Gen_Compound.
+From PV Require Import Units.Tables.
+From PV Require Import Units.Gen_Tables Units.Gen_Compound.
 
 Lemma gen_units_wf : units_wf gen_classes = true.
 Proof. vm_compute. reflexivity. Qed.
